@@ -507,6 +507,39 @@ func c10Tables(repo string, args []string) (string, error) {
 	sb.WriteString("   k: the answer of the continuation *)\n")
 	fmt.Fprintf(&sb, "Definition gen_named_clause (is_named has_pkg : bool) (obj_name obj_path pat_path pat_name : string) (k : bool) : bool :=\n  %s.\n\n", body)
 
+	// ---- 1b. what matchIdentical does to the matched type before it looks at the pattern node: the statements in front of the
+	// dispatch (the model's matcher strips the aliases of the type at EVERY recursive entry: `let t := unalias_top t0`)
+	{
+		var prologue []string
+		tag := ""
+		found := false
+		for _, d := range f.Decls {
+			fd, ok := d.(*ast.FuncDecl)
+			if !ok || c20FuncName(fd) != "Pattern.matchIdentical" {
+				continue
+			}
+			for _, st := range fd.Body.List {
+				if sw, ok := st.(*ast.SwitchStmt); ok {
+					if sw.Init != nil || sw.Tag == nil {
+						return "", fmt.Errorf("typematch: the dispatch of Pattern.matchIdentical is not `switch <tag>`")
+					}
+					tag = exprString(fset, sw.Tag)
+					found = true
+					break
+				}
+				prologue = append(prologue, strings.Join(strings.Fields(exprString(fset, st)), " "))
+			}
+		}
+		if !found {
+			return "", fmt.Errorf("typematch: Pattern.matchIdentical has no top-level switch")
+		}
+		var qs []string
+		for _, p := range prologue {
+			qs = append(qs, c20q(p))
+		}
+		fmt.Fprintf(&sb, "(* Pattern.matchIdentical: the statements in front of the dispatch, and the dispatch's tag *)\nDefinition gen_match_prologue : list string := [%s].\nDefinition gen_match_switch_tag : string := %s.\n\n", strings.Join(qs, "; "), c20q(tag))
+	}
+
 	// ---- 2. builtinTypeByName
 	var tbl *ast.CompositeLit
 	consts := map[string]string{}
